@@ -72,6 +72,15 @@ void Input(util::UnboundedSingleQueue<QueueEntry> &queue, util::scoped_fd &proce
 #ifdef PREPROCESS_VERIF
       PREPROCESS_VERIF_TRACE('F', "lines", res.second ? 1 : 0);
 #endif
+      // Pointer to hash table entry.  Hand it to Output before the line is
+      // written: writing can block on a full pipe (a line longer than the pipe
+      // buffers), and the child can only drain if Output is already reading
+      // its answers.
+      q_entry.value = &res.first->second;
+#ifdef PREPROCESS_VERIF
+      PREPROCESS_VERIF_TRACE('F', "enq", verif_record);
+#endif
+      queue.Produce(q_entry);
       if (res.second) {
         // New entry.  Send to captive process.
 #ifdef PREPROCESS_VERIF
@@ -87,12 +96,6 @@ void Input(util::UnboundedSingleQueue<QueueEntry> &queue, util::scoped_fd &proce
           flush_count = flush_rate;
         }
       }
-      // Pointer to hash table entry.
-      q_entry.value = &res.first->second;
-#ifdef PREPROCESS_VERIF
-      PREPROCESS_VERIF_TRACE('F', "enq", verif_record);
-#endif
-      queue.Produce(q_entry);
 #ifdef PREPROCESS_VERIF
       ++verif_record;
 #endif
